@@ -465,7 +465,10 @@ func main() {
 	file.Add(en)
 	ext := &idl.Struct{Cat: "struct", Name: "Ext", Fields: []*idl.Field{
 		fld(1, "Em", idl.MapOf(idl.EnumT(en), idl.StructT(leaf)), idl.ReqDefault), fld(2, "Ei", idl.MapOf(idl.EnumT(en), i32), idl.ReqDefault), fld(3, "Lm", idl.MapOf(idl.T(idl.I64), idl.StructT(leaf)), idl.ReqOptional),
-		fld(4, "Hm", idl.MapOf(idl.T(idl.I16), str), idl.ReqDefault), fld(62, "F62", i32, idl.ReqDefault), fld(63, "F63", idl.StructT(leaf), idl.ReqDefault), fld(64, "F64", idl.ListOf(idl.StructT(leaf)), idl.ReqDefault)}}
+		fld(4, "Hm", idl.MapOf(idl.T(idl.I16), str), idl.ReqDefault), fld(62, "F62", i32, idl.ReqDefault), fld(63, "F63", idl.StructT(leaf), idl.ReqDefault), fld(64, "F64", idl.ListOf(idl.StructT(leaf)), idl.ReqDefault),
+		// required fields of every zero-writer class (field_mask_zero_required writes their zero when filtered)
+		fld(5, "Re", idl.EnumT(en), idl.ReqRequired), fld(6, "Rb", idl.T(idl.Bool), idl.ReqRequired), fld(7, "Rd", idl.T(idl.Double), idl.ReqRequired), fld(8, "Ry", idl.T(idl.Byte), idl.ReqRequired),
+		fld(9, "Rh", idl.T(idl.I16), idl.ReqRequired), fld(10, "Rl", idl.T(idl.I64), idl.ReqRequired), fld(11, "Rbin", idl.T(idl.Binary), idl.ReqRequired), fld(12, "Rm", idl.MapOf(str, i32), idl.ReqRequired), fld(13, "Rset", idl.SetOf(str), idl.ReqRequired)}}
 	file.Add(ext)
 	prog := &idl.Program{Files: []*idl.File{file}}
 
@@ -542,7 +545,9 @@ func main() {
 			lm.M = append(lm.M, [2]*refsem.Val{refsem.Int(k), lf(int64(60+i), "", int64(70+i))})
 			hm.M = append(hm.M, [2]*refsem.Val{refsem.Int(k), refsem.Str(fmt.Sprintf("h%d", i))})
 		}
-		return refsem.Obj().Set(1, em).Set(2, ei).Set(3, lm).Set(4, hm).Set(62, refsem.Int(62)).Set(63, lf(63, "f63", 630)).Set(64, leaves(n))
+		rm := refsem.Map([2]*refsem.Val{refsem.Str("k"), refsem.Int(1)})
+		return refsem.Obj().Set(1, em).Set(2, ei).Set(3, lm).Set(4, hm).Set(62, refsem.Int(62)).Set(63, lf(63, "f63", 630)).Set(64, leaves(n)).
+			Set(5, refsem.Int(2)).Set(6, refsem.Bool(true)).Set(7, refsem.Dbl(1.5)).Set(8, refsem.Int(3)).Set(9, refsem.Int(4)).Set(10, refsem.Int(5)).Set(11, refsem.Str("bb")).Set(12, rm).Set(13, refsem.List(refsem.Str("s")))
 	}
 	rootsT := []*rootT{{mid, midVals, 3}, {root, []*refsem.Val{rootVal(3), rootVal(1)}, 2}, {ext, []*refsem.Val{extVal(3), extVal(1)}, 3}}
 	if !thorough {
